@@ -53,10 +53,26 @@ def _gen_params(rng, kind, small=False, big=False):
 
 
 # ---- execution side --------------------------------------------------------------------------------
+_SHARED_SEEDS = {}
+
+
+def reset_shared_seeds():
+    _SHARED_SEEDS.clear()
+
+
 def make_seed(spec):
     """seed spec from the plan -> what is passed to aotools"""
     if spec is None or spec == "none":
         return None
+    if isinstance(spec, dict) and "ss" in spec:
+        # a numpy SeedSequence; when 'shared', every actor of the run that names it passes the SAME object
+        # (per-layer seed objects kept by the caller and reused for several calls)
+        if spec.get("shared"):
+            key = int(spec["ss"])
+            if key not in _SHARED_SEEDS:
+                _SHARED_SEEDS[key] = numpy.random.SeedSequence(key)
+            return _SHARED_SEEDS[key]
+        return numpy.random.SeedSequence(int(spec["ss"]))
     if isinstance(spec, dict):
         if "seq" in spec:
             return [int(x) for x in spec["seq"]]
